@@ -1,4 +1,4 @@
-import GqlProofs.Schema.Sound
+import GqlProofs.Schema.Directives
 import GqlProofs.Schema.Examples
 /-
   Hypotheses named in the C07 property theorems (what "the prelude is part of the document" means)
